@@ -2308,6 +2308,149 @@ def t17(ast):
     return out
 
 
+# ------------------------------------------------------------------------------------ T18
+# `parse_write_args`, recognised statement by statement: the dispatch on the variable's type to the parser and the
+# range validation, the variable's write callback, the advance to the next argument, the end of the argument list.
+
+PARSE_ARMS = {"CAT_VAR_INT_DEC": ("parse_int_decimal", "validate_int_range"), "CAT_VAR_UINT_DEC": ("parse_uint_decimal", "validate_uint_range"),
+              "CAT_VAR_NUM_HEX": ("parse_num_hexadecimal", "validate_uint_range"), "CAT_VAR_BUF_HEX": ("parse_buffer_hexadecimal", None),
+              "CAT_VAR_BUF_STRING": ("parse_buffer_string", None)}
+
+
+def _ackerr_busy(st):
+    sts = [x for x in _block(st) if not is_noise(x)]
+    return len(sts) == 2 and _is_self_call(sts[0], "ack_error") and sts[1].get("kind") == "ReturnStmt" and \
+        strip(sts[1]["inner"][0]).get("referencedDecl", {}).get("name") == "CAT_STATUS_BUSY"
+
+
+def _callee_name(n):
+    e = strip(n)
+    while e.get("kind") == "CStyleCastExpr" and e.get("inner"):
+        e = strip(e["inner"][0])
+    if e.get("kind") != "CallExpr":
+        return None
+    return strip(e["inner"][0]).get("referencedDecl", {}).get("name")
+
+
+def _first_arg_self(n):
+    e = strip(n)
+    return e.get("kind") == "CallExpr" and len(e["inner"]) >= 2 and strip(e["inner"][1]).get("referencedDecl", {}).get("name") == "self"
+
+
+def t18(ast):
+    _, body = find_fn(ast, "parse_write_args")
+    sts = [x for x in body.get("inner", []) if not is_noise(x) and x.get("kind") != "DeclStmt"]
+    ok = len(sts) == 8 and sts[0].get("kind") == "SwitchStmt"
+    if ok:
+        sc_ = strip(sts[0]["inner"][0])
+        ok = sc_.get("kind") == "MemberExpr" and sc_.get("name") == "type" and _member_path(sc_["inner"][0]) == "var"
+        seen = set()
+        for labels, stmts in switch_arms(sts[0], None, None):
+            b2 = [x for x in stmts if not is_noise(x) and x.get("kind") != "BreakStmt"]
+            for l in labels:
+                if l == "default":
+                    ok = ok and len(b2) == 1 and b2[0].get("kind") == "ReturnStmt" and \
+                        strip(b2[0]["inner"][0]).get("referencedDecl", {}).get("name") == "CAT_STATUS_ERROR"
+                    continue
+                if l not in PARSE_ARMS:
+                    ok = False
+                    continue
+                pf, vf = PARSE_ARMS[l]
+                want = 3 if vf else 2
+                if len(b2) != want:
+                    ok = False
+                    continue
+                e = strip(b2[0])
+                okk = e.get("kind") == "BinaryOperator" and e.get("opcode") == "=" and strip(e["inner"][0]).get("referencedDecl", {}).get("name") == "stat" \
+                    and _callee_name(e["inner"][1]) == pf and _first_arg_self(e["inner"][1])
+                c1 = strip(b2[1]["inner"][0]) if b2[1].get("kind") == "IfStmt" else {}
+                okk = okk and c1.get("kind") == "BinaryOperator" and c1.get("opcode") == "<" and \
+                    strip(c1["inner"][0]).get("referencedDecl", {}).get("name") == "stat" and strip(c1["inner"][1]).get("value") == "0" and \
+                    _ackerr_busy(b2[1]["inner"][1]) and len(b2[1]["inner"]) == 2
+                if vf:
+                    c2 = strip(b2[2]["inner"][0]) if b2[2].get("kind") == "IfStmt" else {}
+                    okk = okk and c2.get("kind") == "BinaryOperator" and c2.get("opcode") == "!=" and _callee_name(c2["inner"][0]) == vf and \
+                        _first_arg_self(c2["inner"][0]) and strip(c2["inner"][1]).get("value") == "0" and _ackerr_busy(b2[2]["inner"][1]) and len(b2[2]["inner"]) == 2
+                ok = ok and okk
+                seen.add(l)
+        ok = ok and seen == set(PARSE_ARMS)
+    # if ((self->var->write != NULL) && (self->var->write(self->var, self->write_size) != 0)) { ack_error; return BUSY; }
+    if ok:
+        c = strip(sts[1]["inner"][0]) if sts[1].get("kind") == "IfStmt" else {}
+        ok = c.get("kind") == "BinaryOperator" and c.get("opcode") == "&&"
+        if ok:
+            l, r = strip(c["inner"][0]), strip(c["inner"][1])
+            lm = strip(l["inner"][0]) if l.get("kind") == "BinaryOperator" and l.get("opcode") == "!=" else {}
+            rc = strip(r["inner"][0]) if r.get("kind") == "BinaryOperator" and r.get("opcode") == "!=" else {}
+            callee = strip(rc["inner"][0]) if rc.get("kind") == "CallExpr" else {}
+            ok = (lm.get("kind") == "MemberExpr" and lm.get("name") == "write" and _member_path(lm["inner"][0]) == "var"
+                  and callee.get("kind") == "MemberExpr" and callee.get("name") == "write" and _member_path(callee["inner"][0]) == "var"
+                  and len(rc["inner"]) == 3 and _member_path(rc["inner"][1]) == "var" and _member_path(rc["inner"][2]) == "write_size"
+                  and strip(r["inner"][1]).get("value") == "0" and _ackerr_busy(sts[1]["inner"][1]) and len(sts[1]["inner"]) == 2)
+    # if ((++self->index < self->cmd->var_num) && (stat > 0)) { self->var = ...; return BUSY; }
+    if ok:
+        c = strip(sts[2]["inner"][0]) if sts[2].get("kind") == "IfStmt" else {}
+        ok = c.get("kind") == "BinaryOperator" and c.get("opcode") == "&&"
+        if ok:
+            l, r = strip(c["inner"][0]), strip(c["inner"][1])
+            li = strip(l["inner"][0]) if l.get("kind") == "BinaryOperator" and l.get("opcode") == "<" else {}
+            ok = (li.get("kind") == "UnaryOperator" and li.get("opcode") == "++" and not li.get("isPostfix") and _member_path(li["inner"][0]) == "index"
+                  and _cmd_member(l["inner"][1]) == "var_num"
+                  and r.get("kind") == "BinaryOperator" and r.get("opcode") == ">" and strip(r["inner"][0]).get("referencedDecl", {}).get("name") == "stat"
+                  and strip(r["inner"][1]).get("value") == "0")
+            th = [x for x in _block(sts[2]["inner"][1]) if not is_noise(x)]
+            ok = ok and len(th) == 2 and _member_path(strip(th[0])["inner"][0]) == "var" and th[1].get("kind") == "ReturnStmt" and \
+                strip(th[1]["inner"][0]).get("referencedDecl", {}).get("name") == "CAT_STATUS_BUSY"
+    # if (stat > 0) { ack_error; return BUSY; }
+    if ok:
+        c = strip(sts[3]["inner"][0]) if sts[3].get("kind") == "IfStmt" else {}
+        ok = c.get("kind") == "BinaryOperator" and c.get("opcode") == ">" and strip(c["inner"][0]).get("referencedDecl", {}).get("name") == "stat" \
+            and strip(c["inner"][1]).get("value") == "0" and _ackerr_busy(sts[3]["inner"][1])
+    # if ((self->cmd->need_all_vars != false) && (self->index != self->cmd->var_num)) { ack_error; return BUSY; }
+    if ok:
+        c = strip(sts[4]["inner"][0]) if sts[4].get("kind") == "IfStmt" else {}
+        ok = c.get("kind") == "BinaryOperator" and c.get("opcode") == "&&"
+        if ok:
+            l, r = strip(c["inner"][0]), strip(c["inner"][1])
+            ok = (l.get("kind") == "BinaryOperator" and l.get("opcode") == "!=" and _cmd_member(l["inner"][0]) == "need_all_vars"
+                  and r.get("kind") == "BinaryOperator" and r.get("opcode") == "!=" and _member_path(r["inner"][0]) == "index"
+                  and _cmd_member(r["inner"][1]) == "var_num" and _ackerr_busy(sts[4]["inner"][1]))
+            try:
+                ok = ok and _rhs(l["inner"][1], "bool", [], {}) == "false"
+            except Unrecognised:
+                ok = False
+    # if (self->cmd->write == NULL) { ack_ok; return BUSY; }   self->state = WRITE_LOOP; return BUSY;
+    if ok:
+        c = strip(sts[5]["inner"][0]) if sts[5].get("kind") == "IfStmt" else {}
+        th = [x for x in _block(sts[5]["inner"][1]) if not is_noise(x)] if sts[5].get("kind") == "IfStmt" else []
+        ok = (c.get("kind") == "BinaryOperator" and c.get("opcode") == "==" and _cmd_member(c["inner"][0]) == "write" and len(th) == 2
+              and _is_self_call(th[0], "ack_ok") and th[1].get("kind") == "ReturnStmt")
+        e = strip(sts[6])
+        ok = ok and e.get("kind") == "BinaryOperator" and e.get("opcode") == "=" and _member_path(e["inner"][0]) == "state" and \
+            strip(e["inner"][1]).get("referencedDecl", {}).get("name") == "CAT_STATE_WRITE_LOOP" and sts[7].get("kind") == "ReturnStmt" and \
+            strip(sts[7]["inner"][0]).get("referencedDecl", {}).get("name") == "CAT_STATUS_BUSY"
+    if not ok:
+        raise Unrecognised("T18: parse_write_args has an unrecognised shape")
+    return ["/-- `parse_write_args` of src/cat.c: `parseVarValue` is the model of the switch on `self->var->type` (parser, then range\n"
+            "validation for the three numeric types; any failure is answered with ERROR), `varWriteCb` of the write callback -/\n"
+            "def parse_write_args (D : Desc) (s : St) (i : SvcIn) : St × Int :=\n"
+            "  let s : St := s.chkUb s.cmd.isSome;\n"
+            "  let s : St := s.chkUb (s.index < (D.cmdD s.cmd).varNum);\n"
+            "  let var := (D.cmdD s.cmd).varAt s.index;\n"
+            "  let pr := parseVarValue D s var;\n"
+            "  if !pr.2.2 then (ackError D pr.1, Gen.CAT_STATUS_BUSY)\n"
+            "  else\n"
+            "    let cb := varWriteCb D pr.1 var i;\n"
+            "    if cb.2 then (ackError D cb.1, Gen.CAT_STATUS_BUSY)\n"
+            "    else\n"
+            "      let s : St := { cb.1 with index := cb.1.index + 1 };\n"
+            "      if decide (s.index < (D.cmdD s.cmd).varNum) && decide (pr.2.1 > 0) then (s, Gen.CAT_STATUS_BUSY)\n"
+            "      else if pr.2.1 > 0 then (ackError D s, Gen.CAT_STATUS_BUSY)\n"
+            "      else if (D.cmdD s.cmd).needAll && decide (s.index ≠ (D.cmdD s.cmd).varNum) then (ackError D s, Gen.CAT_STATUS_BUSY)\n"
+            "      else if !(D.cmdD s.cmd).hasWrite then (ackOk D s, Gen.CAT_STATUS_BUSY)\n"
+            "      else ({ s with state := .writeLoop }, Gen.CAT_STATUS_BUSY)"]
+
+
 def t9(ast):
     defs = []
     for name in STEPS:
@@ -2327,7 +2470,8 @@ def t9(ast):
     defs += t15(ast)
     defs += t16(ast)
     defs += t17(ast)
-    hdr = ("/-\n  GENERATED by tools/translate.py from small step functions of src/cat.c (T9 - T17). Do not edit.\n"
+    defs += t18(ast)
+    hdr = ("/-\n  GENERATED by tools/translate.py from small step functions of src/cat.c (T9 - T18). Do not edit.\n"
            "  `Proofs/Steps.lean` proves the model's functions equal to these.\n-/\n"
            "import CatVerif.Model.Fsm\nnamespace Cat.Gen\nopen Cat St\nset_option linter.unusedVariables false\n\n")
     return hdr + "\n\n".join(defs) + "\n\nend Cat.Gen\n"
